@@ -102,20 +102,22 @@ def run(tier, seed):
             for body in (" {% if user %} ", "{% endif %}{% nosuch %}", "{% else %}", " plain "):
                 if opn == "comment" and "nosuch" in body:
                     continue
-                src = "a {%" + lh + " " + opn + " " + rh + "%}" + body + "{%" + lh2 + " " + cls + " " + rh2 + "%} b"
-                cases += 1
-                try:
-                    res = env.analyze_tags_from_string(src)
-                    got = sorted(set(res.unclosed_tags) | set(res.unexpected_tags) | set(res.unknown_tags))
-                except Exception as e:  # noqa: BLE001
-                    got = [f"raised {type(e).__name__}"]
-                try:
-                    env.from_string(src)
-                    parses = True
-                except LiquidError:
-                    parses = False
-                if parses and got:
-                    viol.append({"id": "false-alarm", "witness": f"false-alarm:verbatim-{opn}", "source": src, "got": f"reported {got}", "names": [opn]})
+                # a comment tag may carry text after its name ({% comment some note %}); it hides its body all the same
+                for note in (("", "some note ", "x y: 1 ") if opn == "comment" else ("",)):
+                    src = "a {%" + lh + " " + opn + " " + note + rh + "%}" + body + "{%" + lh2 + " " + cls + " " + rh2 + "%} b"
+                    cases += 1
+                    try:
+                        res = env.analyze_tags_from_string(src)
+                        got = sorted(set(res.unclosed_tags) | set(res.unexpected_tags) | set(res.unknown_tags))
+                    except Exception as e:  # noqa: BLE001
+                        got = [f"raised {type(e).__name__}"]
+                    try:
+                        env.from_string(src)
+                        parses = True
+                    except LiquidError:
+                        parses = False
+                    if parses and got:
+                        viol.append({"id": "false-alarm", "witness": f"false-alarm:verbatim-{opn}", "source": src, "got": f"reported {got}", "names": [opn]})
     # history: an analysis in another environment (other tags, other inner-tag map) beforehand must
     # not change what this environment reports
     before = [(dict(r.unknown_tags), dict(r.unexpected_tags), dict(r.unclosed_tags)) for r in (env.analyze_tags_from_string(x) for x in ("{% plural %}", "{% translate %}{% plural %}{% endtranslate %}", "{% if a %}{% plural %}{% endif %}"))]
